@@ -187,13 +187,13 @@ partial def loop (h : IO.FS.Stream) (out : IO.FS.Stream) (m : Profile) : IO Unit
       out.flush
       loop h out m
   | ["SCHED", id, hx, events] =>
-      -- load through a scheduled reader (C14); `bufreader:<n>` / `file` are plain readers
+      -- load through a scheduled reader (C14); `bufreader:<n>` / `file` / `fifo:<n>` are plain readers
       out.putStrLn s!"CASE {id}"
       match Obs.unhex hx with
       | none => out.putStrLn "bad-hex"
       | some bs =>
           let evs : Option (List Ev) :=
-            if events == "-" || events.startsWith "bufreader:" || events == "file" then some []
+            if events == "-" || events.startsWith "bufreader:" || events == "file" || events.startsWith "fifo:" then some []
             else (events.splitOn ",").mapM (fun tok =>
               if tok == "i" then some Ev.interrupted
               else if tok.startsWith "d" then (tok.drop 1).toString.toNat?.map Ev.deliver
